@@ -19,22 +19,33 @@ from harness.translate import c09_registry, c09_values
 
 PROP_ID = "C09"
 COQ_PROPS = "theories/Props/C09.v"
-COQ_EXTRA = ["gen/C09_gen.v", "gen/C09_quant_gen.v"]
+COQ_EXTRA = ["gen/C09_gen.v", "gen/C09_quant_gen.v", "gen/C09_date_gen.v"]
 EXTRACT = ("theories/Extract/ExC09.v", "c09_driver.ml")
 EXTRACT_Z = True
 TRUSTED = [
     "modelled by hand: se.IntEnum / se.IntFlag / BoolAdapter / IdentityAdapter / ContextAdapter / BitField + "
-    "BitfieldDataclass encode+decode, IntEnumSubfieldSerializer / IntFlagSubfieldSerializer / AdapterSubfieldSerializer "
-    "wrappers, datatypes.flags_to_pod, helpers.BitField.pack/unpack, templates.AttachmentStateAdapter "
-    "(Python ints as Z; exceptions as None; enum classes as the two tables list(cls) and cls.__members__ read "
-    "from the live class each run; se.UNSERIALIZABLE = no pretty form, the formatter prints the raw integer)",
+    "BitfieldDataclass (both shift modes) encode+decode, IntEnumSubfieldSerializer / IntFlagSubfieldSerializer / "
+    "AdapterSubfieldSerializer wrappers, datatypes.flags_to_pod, helpers.BitField.pack/unpack, "
+    "templates.AttachmentStateAdapter (Python ints as Z; exceptions as None; enum classes as the two tables list(cls) and "
+    "cls.__members__ read from the live class each run; se.UNSERIALIZABLE = no pretty form, the formatter prints the raw integer)",
     "assumed of CPython's enum module (checked by the correspondence on every registered and synthetic class, not "
     "proved): `val in iter(cls)` / cls(val) pick the member of list(cls) with that value; int(FlagCls(z)) == z for "
     "z >= 0 (boundary KEEP); cls[name] follows cls.__members__",
-    "NOT proved, decided by the implementation-level oracle only (generated values + fuzz + exhaustive 8/16-bit "
-    "sweeps): all byte-payload serializers (TextureEntry, ExtraParams, NameValue, ObjectUpdateCompressed data, "
-    "particle systems, transfer params, IM buckets, bitmaps, ...), DateAdapter (datetime + zone database), "
-    "QuantizedFloat TimeDilation (its arithmetic is C10's subject)",
+    "quantised-float integer keys (TimeDilation): the arithmetic model is C10's Quant/QuantModel.v (binary64 primitive floats, "
+    "imported read-only); the integer clause is decided by evaluating it on all raws (vm_compute); the model's decode is compared "
+    "with the implementation's on all 65 536 raws (checksum over bit patterns + samples) and its encode on sampled cases, per run",
+    "repr / ast.literal_eval are modelled (Subfield/Literal.v) only for the fragment ints, bools, identifier-like str, flat tuples "
+    "of those; tied to CPython by the correspondence (printer == repr, parser == literal_eval on the generated values, parser "
+    "sound on mutated texts); floats, dicts (bit fields), bytes and nested values are checked on the implementation only",
+    "DateAdapter: calendar / ISO text / zone plumbing modelled by hand (Subfield/DateModel.v); the positive theorem "
+    "C09_date_utc_whole_seconds_partial ASSUMES the hypothesis exact_on_seconds about the four float steps (true of binary64, "
+    "evaluated on samples only); the binary64 instance (Subfield/DatePrim.v) converts val to a float before dividing, so it is "
+    "faithful to Python's exact int/int division only for |val| < 2^53 or representable val; it is compared with the "
+    "implementation under TZ=UTC on generated cases each run; real zones (tz database) are not modelled - the DST witness uses "
+    "a hand-written one-transition zone; the three date defect classes remain known findings",
+    "NOT proved, decided by the implementation-level oracle only (generated values, per-byte boundary sweep, fuzz): all "
+    "byte-payload serializers (TextureEntry, ExtraParams, NameValue, ObjectUpdateCompressed data, particle systems, transfer "
+    "params, IM buckets, bitmaps, ...)",
     "the integer theorems are about integers as Python ints; packing them into the variable's bytes is C01/C02's subject",
 ]
 
@@ -48,6 +59,7 @@ def generate(ctx):
     reg = c09_registry.load()
     obls = c09_registry.emit(reg, os.path.join(COQ, "gen", "C09_gen.v"))
     obls += c09_registry.emit_quant(reg, os.path.join(COQ, "gen", "C09_quant_gen.v"))
+    obls += c09_registry.emit_dates(reg, os.path.join(COQ, "gen", "C09_date_gen.v"), ctx.rng, ctx.pick(120, 2500), ctx.notes)
     inert = [".".join(e.key) for e in reg.entries if e.inert]
     opaque = ["%s (%s)" % (".".join(e.key), e.why_opaque) for e in reg.entries if not e.modelled and not e.inert and e.quant is None]
     quant = [".".join(e.key) for e in c09_registry.quant_entries(reg)]
@@ -658,12 +670,12 @@ def payload_cases(ctx, e, n_gen, n_fuzz):
         bases = []
         swept = _SWEPT.setdefault(id(ctx), set())
         sweep_key = (id(ser), tuple(sorted(ctxvars.items())))
-        do_sweep = ctx.thorough or sweep_key not in swept     # quick: once per distinct serializer object and context
+        do_sweep = sweep_key not in swept     # once per distinct serializer object and context (several keys share one)
         swept.add(sweep_key)
         for b in (sorted(set(produced), key=lambda x: (-len(x), x)) if do_sweep else ()):
             if not any(len(b) == len(o) for o in bases):
                 bases.append(b)                      # one base per distinct length, longest first
-            if len(bases) >= ctx.pick(2, 4):
+            if len(bases) >= ctx.pick(2, 3):
                 break
         for base in bases:
             n = len(base)
@@ -711,7 +723,7 @@ def corr_bytes(ctx, reg):
                           "TEMPLATES plus an absent one; every subset of the switch flags): values generated from the "
                           "sub-template's own spec tree and serialized (= payloads the serializer can itself produce: must be "
                           "accepted and survive decode-encode byte-for-byte), a per-byte boundary sweep of those (every position - a strided subset of long payloads in the "
-                          "quick tier - set to each of 00 01 7F 80 FC FD FE FF, one at a time; in the quick tier once per distinct serializer object when "
+                          "quick tier - set to each of 00 01 7F 80 FC FD FE FF, one at a time; once per distinct serializer object when "
                           "it is registered under several keys), random mutations, and raw random / "
                           "zero byte strings (if accepted: one decode-encode pass must reach a fixed point that decodes to the same "
                           "value); each in object and plain-data form; plain-data values must consist of literals only and, "
